@@ -5875,9 +5875,10 @@ class PyCdlib:
         if signature != b'\xfb\xc0\x78\x70':
             raise pycdlibexception.PyCdlibInvalidInput('Invalid signature on boot file for iso hybrid')
 
-        self.isohybrid_mbr = isohybrid.IsoHybrid()
-        self.isohybrid_mbr.new(efi, mac, part_entry, mbr_id, part_offset,
-                               geometry_sectors, geometry_heads, part_type)
+        isohybrid_mbr = isohybrid.IsoHybrid()
+        isohybrid_mbr.new(efi, mac, part_entry, mbr_id, part_offset,
+                          geometry_sectors, geometry_heads, part_type)
+        self.isohybrid_mbr = isohybrid_mbr
 
         # The boot file addresses in the MBR/GPT are filled in during extent
         # assignment, so the metadata is stale now.
